@@ -112,6 +112,11 @@ func auth(w *World, c context.Context, kind string, mode int, rw http.ResponseWr
 	case 2:
 		w.setResult(idx, "", fmt.Errorf("auth error"), "")
 		return c, false, fmt.Errorf("verif-sim: authentication error")
+	case 3:
+		// the documented contract: 'authenticated' is ignored when an error
+		// is returned - so it may be anything
+		w.setResult(idx, "", fmt.Errorf("auth error"), "")
+		return c, true, fmt.Errorf("verif-sim: authentication error")
 	}
 	w.setResult(idx, "ok", nil, "")
 	return c, true, nil
